@@ -372,7 +372,17 @@ def monEval (st : Inp) (g : Graph) (obs : String) : List Fail :=
         let (v, ex) := specExtract t s c
         if x.ex == ex && x.val == some v then [] else
           let sig := if c.field == numDescendants then "num-descendants" else if usesRoot c then "root-prefix" else "fields-first-present"
-          [mk sig s!"rule {r.name}: extracted {(x.val.map valTok).getD "?"} exists={x.ex}, first present field gives {valTok v} exists={ex}"]).take 1
+          [mk sig s!"rule {r.name}: extracted {(x.val.map valTok).getD "?"} exists={x.ex}, first present field gives {valTok v} exists={ex}"]).take 1 ++
+      -- (5) the operator itself, on the value the implementation extracted from a span that has the field
+      (cells.flatMap fun x =>
+        match x.val with
+        | some v =>
+          if x.ex && x.m != condValue E c v true then
+            [mk s!"comparison:op={opWord c.op}:dt={dtWord c.dt}" s!"rule {r.name}: {valTok v} {opWord c.op} {valTok c.val} (datatype {dtWord c.dt}) gave {x.m}"]
+          else if !x.ex && c.op == .notEx && !x.m then
+            [mk "comparison:op=not-exists:dt=none" s!"rule {r.name}: not-exists did not match a span without the field"]
+          else []
+        | none => []).take 1
     -- (2) scopes
     let ruleRes := perRule.map fun (r, (mt, ms), cs) =>
       let cs' : List (Cond × List Cell) := cs.map fun (c, cells) => (c, cellsOf cells)
